@@ -33,9 +33,18 @@ def algo_template(name: str, num_envs: int, num_steps: int, extra: tuple = ()):
 
 
 def with_gamma(algo, gamma, lam=None):
-    algo = eqx.tree_at(lambda a: a.gamma, algo, jnp.asarray(gamma, dtype=float))
+    """The template with the discount / GAE parameter *as the algorithm's own constructor stores them* for the requested
+    arguments (a throw-away instance is constructed and its two fields are transplanted as array leaves, so the compile cache
+    of the template is kept while the constructor's handling of the arguments stays under test)."""
+    kw = {"gamma": float(gamma)}
     if lam is not None:
-        algo = eqx.tree_at(lambda a: a.gae_lambda, algo, jnp.asarray(lam, dtype=float))
+        kw["gae_lambda"] = float(lam)
+    if type(algo).__name__ == "PPO":
+        kw.update(num_batches=1, num_epochs=1)
+    made = type(algo)(num_envs=algo.num_envs, num_steps=algo.num_steps, **kw)
+    algo = eqx.tree_at(lambda a: a.gamma, algo, jnp.asarray(made.gamma, dtype=float))
+    if hasattr(algo, "gae_lambda"):
+        algo = eqx.tree_at(lambda a: a.gae_lambda, algo, jnp.asarray(made.gae_lambda, dtype=float))
     return algo
 
 
